@@ -143,6 +143,7 @@ TABLE: Dict[str, List[Ob]] = {
     "DoDeleteBuffer": [pre("call:Check_IsDeadAfter", why="the buffer must be dead")],
     "DoReuseBuffer": [
         pre("guard:.type", why="both buffers must have the same type"),
+        pre("guard:is_ancestor_of", why="the surviving buffer must be in scope where the replaced one is declared (declared earlier in an enclosing block)", props=("C04",)),
         pre("call:Check_IsDeadAfter", why="the reused buffer must be dead from the first use of the replaced one — on every path, not only inside a callback", scope=1, known="D23"),
     ],
     "DoStageMem": [post("Check_Bounds", why="staged accesses must stay in bounds")],
